@@ -38,7 +38,7 @@ def emphasis(prop, rnd):
 
 def gen_runs(prop, tier, seed):
     rnd = random.Random(seed * 9973 + PROPS.index(prop))
-    n_prog = {"quick": 45, "thorough": 450}[tier]
+    n_prog = {"quick": 80, "thorough": 600}[tier]
     runs = []
     for k in range(n_prog):
         prog = progs.gen_program(rnd, f"p{k}", roots=2 if rnd.random() < 0.15 else 1)
